@@ -58,6 +58,10 @@ def gen_cases(ctx):
                     base = {"n": n, "ids": ids, "pattern": pname,
                             "answers": [[times[k], "answer", perm[k]] for k in range(n)]}
                     yield base
+                    if pname in ("spread", "across_polls", "on_boundary") and ids == "auto":
+                        # callers that also pass the optional arguments (other branches of the wait loop)
+                        yield dict(base, opts=["progress_cb"])
+                        yield dict(base, opts=["progress_cb", "cancel_token"], opts_for="odd")
                     if pname in ("spread", "across_polls") and ids != "auto":
                         # a second, unrelated connection in the same process whose callers use the very same ids
                         yield dict(base, twin_connection=True)
@@ -107,9 +111,18 @@ def exec_case(ctx, case: Dict[str, Any]) -> None:
             if i > 0 and case.get("start_gap"):
                 await asyncio.sleep(case["start_gap"] * i)
             t0 = loop.time()
+            kw: Dict[str, Any] = {}
+            if case.get("opts") and (case.get("opts_for") != "odd" or i % 2):
+                if "progress_cb" in case["opts"]:
+                    async def _cb(progress, total, message):
+                        return None
+                    kw["progress_callback"] = _cb
+                if "cancel_token" in case["opts"]:
+                    from chuk_mcp.protocol.messages.send_message import CancellationToken
+                    kw["cancellation_token"] = CancellationToken()
             try:
                 res = await send_message(pipe.read, pipe.write, "tools/call", {"tag": f"caller-{i}"},
-                                         timeout=TIMEOUT,
+                                         timeout=TIMEOUT, **kw,
                                          message_id=(f"id-{i}" if case["ids"] == "explicit" else
                                                      # ids that differ only in their JSON type: 1, "1", 2, "2"
                                                      ((i // 2 + 1) if i % 2 == 0 else str(i // 2 + 1))
